@@ -64,6 +64,9 @@ vars == <<val, dirty, syncq, fifo, content, evq, syncqs, nextSel, syncIdx, p, la
 View == [val |-> val, dirty |-> dirty, syncq |-> syncq, fifo |-> fifo, content |-> content, evq |-> evq,
          syncqs |-> syncqs, nextSel |-> nextSel, syncIdx |-> syncIdx]
 
+\* the view of the exhaustive runs with the ghost: everything but lastAct (the laws about lastAct are action properties)
+ViewG == <<View, p>>
+
 G(x) == IF Ghost THEN x ELSE p
 CurMap == [k \in Keys |-> content[k]]
 
@@ -428,6 +431,9 @@ ResultExact ==
         /\ (lastAct.frames = << >> /\ Kind # "supply") => lastAct.res = "nodata"
         /\ lastAct.res \in {"nodata", "done"} => ~Pending
         /\ lastAct.res = "more" => Pending
+
+\* the same as an action property (checked on every transition, also when lastAct is hidden by a VIEW)
+ResultExactAct == [][ResultExact']_vars
 
 \* a demand lane holds a computed value exactly while it has something to write with it
 DemandComputedOk == Kind = "demand" => ((val # 0) <=> (dirty \/ syncq # << >>))
